@@ -1,4 +1,5 @@
 """Anchors and helpers shared by the rule modules (names of the repo's entities live here, once)."""
+import os
 from sa import ir, cfg
 from sa.callgraph import CallGraph, tree_effects, lvalue_root, ASSIGN_OPS
 from sa.ir import fmt, walk, short
@@ -205,3 +206,157 @@ def share(ctx, module, rules, as_rule, what, minimum):
             o.rule = as_rule
             ctx.obs.append(o)
     ctx.need(as_rule, what, n, minimum)
+
+
+# ---------------------------------------------------------------------------------------------------------------- general rules
+def chosen(prog, wf):
+    """[(line, text, kind, Fn-or-None, node)] for the operator= calls and constructions at statement level of a witness function:
+    what overload resolution selected"""
+    out = []
+    for bid, i, e in wf.roots():
+        x = e["expr"]
+        nodes = []
+        if x.get("k") == "decl":
+            for v in x.get("vars", []):
+                init = ir.unwrap(v.get("init")) if v.get("init") is not None else None
+                while isinstance(init, dict) and init.get("k") == "cast":
+                    init = ir.unwrap(init["e"])
+                if isinstance(init, dict) and init.get("k") == "construct":
+                    nodes.append(("construct", init, init.get("ctor")))
+        else:
+            y = ir.unwrap(x)
+            while isinstance(y, dict) and y.get("k") == "cast":
+                y = ir.unwrap(y["e"])
+            if isinstance(y, dict) and y.get("k") == "call" and y.get("op") == "=":
+                nodes.append(("assign", y, y.get("callee")))
+            elif isinstance(y, dict) and y.get("k") == "call":
+                nodes.append(("call", y, y.get("callee")))
+        for kind, n, cid in nodes:
+            out.append((e.get("ln"), fmt(x)[:80], kind, prog.fn(cid) if cid else None, n))
+    return out
+
+
+
+def raising_functions(prog, cg):
+    """{fn id: (line, text)} of /repo functions that contain a reachable raise / throw"""
+    from . import C04
+    out = {}
+    for f in prog.fns.values():
+        if not f.has_cfg or not f.file.startswith("/repo/"):
+            continue
+        for b in f.reachable_blocks():
+            rn = C04.raise_nodes(f, b)
+            if rn:
+                out[f.id] = (rn[0][2].get("ln"), (rn[0][2].get("text") or fmt(rn[0][0]))[:70])
+                break
+    return out
+
+
+def rule_noexcept(ctx, rule, scope, what, minimum=0):
+    """G-noexcept: a function of the scope that is declared noexcept reaches no raise: the exception could not leave it, the
+    process would end in std::terminate instead of the documented error. scope: predicate on Fn."""
+    prog = ctx.prog
+    cg = callgraph(ctx)
+    raisers = raising_functions(prog, cg)
+    n = 0
+    seen = set()
+    for f in sorted(prog.fns.values(), key=lambda g: g.id):
+        if not f.has_cfg or not f.file.startswith("/repo/") or not f.flags.get("noexcept") or not scope(f):
+            continue
+        key = (f.file, f.line, f.name)
+        if key in seen:
+            continue
+        seen.add(key)
+        n += 1
+        reach = cg.reachable([f.id])
+        hit = sorted(r for r in reach if r in raisers)
+        if hit:
+            g = prog.fn(hit[0])
+            ctx.bad(rule, f, "noexcept-reaches-raise:%s" % short(f.qual),
+                    "%s is declared noexcept but reaches `%s` (%s:%s): %s - the exception cannot leave the noexcept function, std::terminate ends the process instead"
+                    % (short(f.qual), raisers[hit[0]][1], os.path.basename(g.file), raisers[hit[0]][0], what), f)
+        else:
+            ctx.ok(rule, f, "noexcept-reaches-raise:%s" % short(f.qual), "no raise reachable", f)
+    # the rule is about declarations that may not exist at all: the count of scoped functions is its census
+    scoped = len({(f.file, f.line) for f in prog.fns.values() if f.has_cfg and f.file.startswith("/repo/") and scope(f)})
+    ctx.need(rule, "functions in the noexcept scope (%d of them noexcept)" % n, scoped, max(1, minimum))
+
+
+def rule_no_static_state(ctx, rule, scope, what, allowed=(), minimum=1):
+    """G-static: the functions of the scope keep no state between calls or share none between threads: no function-local
+    static / thread_local object (other than constant tables and the named exceptions). scope: predicate on Fn;
+    allowed: {(function short qual, local name): reason}"""
+    prog = ctx.prog
+    nf = 0
+    seen = set()
+    for f in sorted(prog.fns.values(), key=lambda g: g.id):
+        if not f.has_cfg or not f.file.startswith("/repo/") or not scope(f):
+            continue
+        key = (f.file, f.line)
+        if key in seen:
+            continue
+        seen.add(key)
+        nf += 1
+        for bid, i, e in f.all_elems():
+            x = e.get("expr")
+            if not isinstance(x, dict) or x.get("k") != "decl":
+                continue
+            for v in x.get("vars", []):
+                if not v.get("static"):
+                    continue
+                t = (v.get("type") or "")
+                dyn = isinstance(v.get("init"), dict) and any(isinstance(y, dict) and y.get("k") in ("call", "ucall", "new", "lambda") for y in walk(v["init"]))
+                if (t.startswith("const ") or " const" in t.split("<")[0] or "constexpr" in t) and not dyn and not v.get("thread_local"):
+                    continue  # a constant table
+                if (short(f.qual), v["name"]) in allowed:
+                    continue
+                ctx.bad(rule, f, "no-static-state:%s:%s" % (short(f.qual), v["name"]),
+                        "%s keeps `%s %s %s` across calls: %s" % (short(f.qual), "thread_local" if v.get("thread_local") else "static", t, v["name"], what), (f, x.get("ln")))
+    ctx.need(rule, "functions scanned for static state", nf, minimum)
+    if nf:
+        ctx.ok(rule, "-", "no-static-state:scanned", "%d function(s)" % nf, "-")
+
+
+def rule_no_narrowing(ctx, rule, cls, what, minimum=1):
+    """G-narrow: an integral data member of cls that is assigned from an integral parameter (setter / constructor) is at
+    least as wide as that parameter."""
+    prog = ctx.prog
+    c = prog.cls(cls)
+    if not ctx.anchor(rule, cls, c is not None):
+        return
+    fbits = {fl["qual"]: (fl.get("bits"), fl.get("type")) for fl in c.get("fields", []) if fl.get("bits")}
+    n = 0
+    seen = set()
+    for f in prog.methods_of(cls):
+        if not f.has_cfg:
+            continue
+        pb = {p0["name"]: (p0.get("bits"), p0.get("type")) for p0 in f.params if p0.get("bits")}
+        if not pb:
+            continue
+        writes = []
+        for bid, i, e in f.all_elems():
+            x = e.get("expr")
+            if x is None:
+                continue
+            if e.get("kind") == "init" and e.get("field") in fbits:
+                writes.append((e["field"], x, e.get("ln")))
+            for y in walk(x):
+                if y.get("k") == "bin" and y.get("op") == "=":
+                    l = ir.unwrap(y["l"])
+                    if isinstance(l, dict) and l.get("k") == "member" and l.get("field") in fbits:
+                        writes.append((l["field"], y["r"], y.get("ln")))
+        for fld, rhs, ln in writes:
+            r = ir.unwrap(rhs)
+            while isinstance(r, dict) and r.get("k") == "cast" and not r.get("explicit") and r.get("ck") not in ("static", "functional", "cstyle"):
+                r = ir.unwrap(r["e"])
+            if isinstance(r, dict) and r.get("k") == "ref" and r.get("decl", "").startswith("param:") and r["decl"][6:] in pb:
+                key = (fld, f.name, r["decl"][6:])
+                if key in seen:
+                    continue
+                seen.add(key)
+                n += 1
+                (mb, mt), (qb, qt) = fbits[fld], pb[r["decl"][6:]]
+                ctx.check(mb >= qb, rule, f, "member-as-wide-as-parameter:%s<-%s(%s)" % (short(fld), f.name, r["decl"][6:]),
+                          "%s is `%s` (%d bits) but %s() assigns it from `%s %s` (%d bits): %s" % (short(fld), mt, mb, f.name, qt, r["decl"][6:], qb, what), (f, ln),
+                          why_ok="%s (%d) <- %s (%d)" % (mt, mb, qt, qb))
+    ctx.need(rule, "integral members of %s assigned from integral parameters" % short(cls), n, minimum)
